@@ -152,7 +152,7 @@ Hint Resolve hs_act hs_hist hs_msgq hs_defq hs_curseq hs_running : stab.
 Hypothesis Hpei : forall s co fuel ev src, child children s = Some co -> pres P (lift_child s 0 (co_pei co fuel ev src)).
 Hypothesis Hexit_pre : forall s co fuel ev, child children s = Some co -> pres P (lift_child s tt (co_exit_pre co fuel ev)).
 Hypothesis Hexit_post : forall s co ev, child children s = Some co -> pres P (lift_child s tt (co_exit_post co ev)).
-Hypothesis Hentry : forall fuel s ev k, pres P (exec_entry cf contained mc children fuel s ev k).
+Hypothesis Hentry : forall fwd fuel s ev k, pres P (exec_entry_gen cf contained mc children fwd fuel s ev k).
 
 Lemma p_push_msg q : pres P (push_msg q).
 Proof. unfold push_msg. pres_auto. Qed.
@@ -203,7 +203,9 @@ Lemma p_run_action x ev : pres P (run_action mc x ev).
 Proof. unfold run_action. pres_auto. Qed.
 Lemma p_run_guard x ev : pres P (run_guard mc x ev).
 Proof. unfold run_guard. pres_auto. Qed.
-Hint Resolve p_run_action p_run_guard Hentry : stab.
+Lemma p_exec_entry fuel s ev k : pres P (exec_entry cf contained mc children fuel s ev k).
+Proof. exact (Hentry true fuel s ev k). Qed.
+Hint Resolve p_run_action p_run_guard Hentry p_exec_entry : stab.
 
 Lemma p_exec_row fuel r x ev : pres P (exec_row cf contained mc children fuel r x ev).
 Proof. unfold exec_row. pres_auto. Qed.
@@ -460,21 +462,21 @@ Hypothesis Hresets : entry_throw_resets cf = true.
 Hypothesis Hstartq : start_queues cf = true.
 
 (* the marker of this level *)
-Lemma f_entry b fuel s ev k : pres (flag_is b) (exec_entry cf contained mc children fuel s ev k).
+Lemma f_entry b fwd fuel s ev k : pres (flag_is b) (exec_entry_gen cf contained mc children fwd fuel s ev k).
 Proof.
-  unfold exec_entry. pose proof (flag_stable b) as HS.
+  unfold exec_entry_gen. pose proof (flag_stable b) as HS.
   destruct (child children s) as [co|] eqn:E.
   - rewrite Hresets. apply pres_on_throw; [|apply flag_lift].
     apply pres_bind; [apply p_in_child; auto; apply flag_lift|]. intros _.
     apply pres_bind; [apply p_cb_at; auto|]. intros _. apply p_in_child; auto. apply flag_lift.
   - destruct (s_kind (get_state mc s)); try (apply p_cb; auto).
-    apply pres_bind; [apply p_cb; auto | intros _; destruct (negb (Nat.eqb (e_ty ev) EV_NONE)); [apply pres_push_up | apply pres_ret]].
+    apply pres_bind; [apply p_cb; auto | intros _; destruct (fwd && negb (Nat.eqb (e_ty ev) EV_NONE)); [apply pres_push_up | apply pres_ret]].
 Qed.
 
 (* the kids of this level *)
-Lemma k_entry fuel s ev k : pres kids_idle (exec_entry cf contained mc children fuel s ev k).
+Lemma k_entry fwd fuel s ev k : pres kids_idle (exec_entry_gen cf contained mc children fwd fuel s ev k).
 Proof.
-  unfold exec_entry. destruct (child children s) as [co|] eqn:E.
+  unfold exec_entry_gen. destruct (child children s) as [co|] eqn:E.
   - rewrite Hresets. pose proof (Hch s co E) as Hco.
     assert (Habs : forall (a:unit) Q, pres (kids_at s Q) (absorb_up contained mc ;; ret a)).
     { intros a Q. apply pres_bind; [apply p_absorb_up; apply kids_at_stable | intros; apply pres_ret]. }
@@ -500,7 +502,7 @@ Proof.
       intros rn g r rn' g' Hk Em. inversion Em; subst. cbn. apply idle_unfold. split; [destruct rn; reflexivity | apply kids_idle_set_processing; auto].
   - pose proof kids_idle_stable as HS.
     destruct (s_kind (get_state mc s)); try (apply p_cb; auto).
-    apply pres_bind; [apply p_cb; auto | intros _; destruct (negb (Nat.eqb (e_ty ev) EV_NONE)); [apply pres_push_up | apply pres_ret]].
+    apply pres_bind; [apply p_cb; auto | intros _; destruct (fwd && negb (Nat.eqb (e_ty ev) EV_NONE)); [apply pres_push_up | apply pres_ret]].
 Qed.
 
 Let Kpei : forall s co fuel ev src, child children s = Some co -> pres kids_idle (lift_child s 0 (co_pei co fuel ev src)).
